@@ -25,9 +25,10 @@ def gen_shape(rng, maxpix=48, ndim=None):
             return shape
 
 
-def gen_values(rng, n, shape):
+def gen_values(rng, n, shape, big=False):
     """integer pixel values in model units with a chosen tie structure; returns (k list, kind)"""
-    kind = rng.choice(['perm', 'perm', 'small', 'small', 'plateau', 'nested', 'chain', 'checker', 'random', 'two'])
+    kind = rng.choice(['perm', 'perm', 'small', 'small', 'plateau', 'nested', 'chain', 'checker', 'random', 'two',
+                       'perm', 'small', 'plateau', 'nested', 'random', 'neardelta', 'bigint' if big else 'random'])
     if kind == 'perm':
         k = list(range(1, n + 1))
         rng.shuffle(k)
@@ -50,6 +51,16 @@ def gen_values(rng, n, shape):
             k.reverse()
     elif kind == 'checker':
         k = [(5 + rng.randint(0, 3)) if (sum(divmod(i, max(1, shape[-1]))) % 2 == 0) else rng.randint(0, 2) for i in range(n)]
+    elif kind == 'neardelta':
+        # heights a hair below / at / above a large min_delta (relative differences of 1e-6)
+        M = 10 ** 6
+        k = [rng.choice([0, 0, 1, M - 1, M, M + 1, 2 * M - 1, 2 * M, 2 * M + 1]) for _ in range(n)]
+        return k, kind
+    elif kind == 'bigint':
+        # integers beyond 2**53: not representable in float64
+        base = 2 ** 60 + 1
+        k = [base + rng.randint(0, 12) for _ in range(n)]
+        return k, kind
     else:
         k = [rng.randint(-20, 40) for _ in range(n)]
     if rng.random() < 0.25:
@@ -119,8 +130,10 @@ def gen_compute_case(rng, maxpix=48, force=None):
     n = 1
     for s in shape:
         n *= s
-    k, kind = gen_values(rng, n, shape)
-    fb = force.get('fb', rng.choice([0, 0, 0, 1, 2, 4]))
+    k, kind = gen_values(rng, n, shape, big=bool(force.get('big')))
+    fb = force.get('fb', rng.choice([0, 0, 0, 0, 1, 2, 4, 30, 40]))
+    if kind in ('neardelta', 'bigint'):
+        fb = 0
     has_nan = False
     if fb > 0 or rng.random() < 0.3:
         if rng.random() < 0.4 and n > 1:
@@ -130,7 +143,15 @@ def gen_compute_case(rng, maxpix=48, force=None):
     if all(x is None for x in k):
         k[0] = 1
     dtype = force.get('dtype') or pick_dtype(rng, k, fb, has_nan)
+    if kind == 'bigint' and not force.get('dtype'):
+        dtype = 'int64'
+        k = [x if x is not None else 2 ** 60 for x in k]
     minv, mind, minn = gen_params(rng, k, n, fb)
+    if kind == 'bigint' and minv != 'min' and minv[1] != 1:
+        minv = [minv[0] // minv[1], 1]      # a float threshold cannot be compared exactly with int64 beyond 2**53
+    if kind == 'neardelta':
+        mind = rng.choice([10 ** 6, 10 ** 6, 2 * 10 ** 6, 0])
+        minv = rng.choice([[-1, 1], [0, 1], 'min'])
     case = {'shape': shape, 'fb': fb, 'k': k, 'dtype': dtype, 'minv': minv, 'mind': mind, 'minn': minn,
             'crits': gen_crits(rng, k, n), 'kind': kind, 'periodic': [], 'adj': 'grid', 'layout': 'C'}
     r = rng.random()
@@ -142,8 +163,12 @@ def gen_compute_case(rng, maxpix=48, force=None):
         axes = [a for a in range(len(shape)) if rng.random() < 0.6]
         case['periodic'] = axes or [rng.randrange(len(shape))]
         case['per_as_list'] = rng.random() < 0.5
-    elif r < 0.35:
+    elif r < 0.33:
         case['adj'] = 'diag'
+    elif r < 0.40:
+        # user-supplied adjacency on an irregular mesh: grid adjacency with some nodes unconnected
+        case['adj'] = 'holes'
+        case['isolated'] = sorted(set(rng.randrange(n) for _ in range(rng.randint(1, max(1, n // 5)))))
     if case['crits']:
         case['crit_as_list'] = rng.random() < 0.5
     # unsigned dtypes with the default threshold are interesting at 0
@@ -151,6 +176,11 @@ def gen_compute_case(rng, maxpix=48, force=None):
         lo = min(x for x in k if x is not None)
         case['k'] = [x - lo for x in k]
     case['reuse'] = rng.random() < 0.3
+    if 'layout' not in force:
+        case['layout'] = rng.choices(['C', 'F', 'strided', 'readonly'], weights=[70, 15, 10, 5])[0]
+    if kind == 'bigint':
+        # sums of 2**60 leave int64; the harness hands value thresholds over as floats
+        case['crits'] = [c for c in case['crits'] if c[0] in ('seeds', 'npixacc')]
     case.update(force.get('override', {}))
     return case
 
